@@ -117,10 +117,14 @@ def run_native(unit, adapter, inputs):
     extra = []
     libs = []
     nosan = False
+    want_all = False
     for ln in open(src):
         m = re.match(r'//\s*SOURCES:\s*(.*)', ln)
         if m:
-            extra += ['/repo/src/' + s for s in m.group(1).split()]
+            if m.group(1).split()[:1] == ['@all']:
+                want_all = True      # the whole library, compiled from the working tree (objects cached for this run)
+            else:
+                extra += ['/repo/src/' + s for s in m.group(1).split()]
         m = re.match(r'//\s*CXXFLAGS:\s*(.*)', ln)
         if m:
             extra += m.group(1).split()
@@ -133,6 +137,20 @@ def run_native(unit, adapter, inputs):
            '-I/repo/src', '-I', os.path.join(ROOT, 'replay'), src] + extra + libs + ['-o', exe]
     if nosan:
         cmd = [c for c in cmd if not c.startswith('-fsanitize') and not c.startswith('-fno-sanitize')]
+    if want_all and exe not in _lib_built:
+        import glob as _glob, hashlib, concurrent.futures as _cf
+        libdir = os.path.join(work, 'lib_all'); os.makedirs(libdir, exist_ok=True)
+        flags = [c for c in cmd[1:cmd.index('-I/repo/src')]]
+        def one(f):
+            o = os.path.join(libdir, hashlib.md5(f.encode()).hexdigest()[:12] + '.o')
+            q = subprocess.run(['clang++-14'] + flags + ['-I/repo/src', '-c', f, '-o', o], stdout=subprocess.PIPE, stderr=subprocess.STDOUT, text=True, timeout=900)
+            return o, q.returncode, q.stdout
+        with _cf.ThreadPoolExecutor(max_workers=16) as ex:
+            objs = list(ex.map(one, sorted(_glob.glob('/repo/src/**/*.cpp', recursive=True))))
+        bad = [o for o in objs if o[1] != 0]
+        if bad:
+            _lib_built[exe] = (1, 'library build failed: ' + bad[0][2][-2000:])
+        cmd = cmd[:-2] + [o[0] for o in objs] + cmd[-2:]
     if exe not in _lib_built:
         p = subprocess.run(cmd, stdout=subprocess.PIPE, stderr=subprocess.STDOUT, text=True, timeout=900)
         _lib_built[exe] = (p.returncode, p.stdout)
